@@ -158,7 +158,7 @@ def replay_worlds(name: str, sample: int | None, path: str, *, lo=True, subs=Tru
         for w in ws:
             k, texts, hits = world_of(fam, w)
             rec = Recorder(synthetic_registry(texts, hits), hang_s=10)
-            tr = rec.scan(texts[0], k, lo=lo, subs=subs)
+            tr = rec.scan(texts[0], k, lo=lo, subs=subs, prepared=(w % 5 == 4))
             tr["origin"] = f"world {name}#{w}"
             f.write(json.dumps(tr) + "\n")
             count += 1
